@@ -34,6 +34,13 @@ def scenarios(tier, seed):
                 out.append({"sim": sim, "n": n, "edges": edges, "weights": None, "tau": tau, "gamma": gamma,
                             "p": 1.0 if disc else 0.5, "tmin": tmin, "tmax": tmax, "init_kw": ik,
                             "weighted": simruns.supports_weights(sim) and s % 2 == 0, "seed": s * 15485863 + gi})
+    # discrete_SIR with a deterministic transmission rule and a deterministic recovery test (nodes stay infectious 1 + u%3 steps)
+    for gi, (n, edges) in enumerate(fam):
+        if n < 3:
+            continue
+        for tmin in (0, -2):
+            out.append({"sim": "discrete_SIR(recovery test)", "rectest": 1, "n": n, "edges": edges, "tmin": tmin, "seed": gi,
+                        "init_kw": {"initial_recovereds": [2]} if gi % 2 else {}})
     # table-driven event-driven SIR with ties, zero and infinite values and horizons that coincide with event times
     from harness import event_scn
     for k, es in enumerate(event_scn.sir_scenarios(seed + 10, 400 if tier == "quick" else 4000, exhaustive2=False)):
@@ -58,13 +65,28 @@ def _record(i):
     sc = _G["scn"][i]
     EoN = _G["EoN"]
     sim = sc["sim"]
-    kind = "SIR" if "ties" in sc else simruns.kind_of(sim)
+    kind = "SIR" if ("ties" in sc or "rectest" in sc) else simruns.kind_of(sim)
     w = None
     if sc.get("weighted"):
         w = {"g": [1.0 + (u % 3) * 0.5 for u in range(sc["n"])], "w": [0.5 + (k % 4) * 0.5 for k in range(len(sc["edges"]))]}
     sts = ["S", "I", "R"] if kind == "SIR" else ["S", "I"]
     try:
-        if "ties" in sc:
+        if "rectest" in sc:
+            G = simruns.make_graph(sc["n"], sc["edges"])
+
+            def run(full):
+                cnt = {}
+
+                def keep(u):
+                    cnt[u] = cnt.get(u, 0) + 1
+                    return cnt[u] >= 1 + u % 3
+                kw = dict(initial_infecteds=[1], tmin=sc["tmin"], test_recovery=keep, return_full_data=full)
+                if sc["init_kw"]:
+                    kw["initial_recovereds"] = [2]
+                return EoN.discrete_SIR(G, test_transmission=lambda u, v: (u + v) % 4 != 0, args=(), **kw)
+            arrs = [list(map(float, a)) for a in run(False)]
+            obj = run(True)
+        elif "ties" in sc:
             G, r0 = _call_ties(EoN, sc["ties"], False)
             arrs = [list(map(float, a)) for a in r0]
             G, obj = _call_ties(EoN, sc["ties"], True)
@@ -83,7 +105,10 @@ def _record(i):
             acc["R"] = obj.R()
         rng = pyrandom.Random(sc["seed"])
         sub = sorted(rng.sample(nodes, max(1, len(nodes) // 2)))
-        ssub = obj.summary(nodelist=sub)
+        # "any node subset": a list, a set, a tuple, a one-shot iterator or a generator
+        style = sc["seed"] % 5
+        arg = [list(sub), set(sub), tuple(sub), iter(list(sub)), (x for x in list(sub))][style]
+        ssub = obj.summary(nodelist=arg)
         # query times: every event time, midpoints, tmin, beyond the end
         import math
         if any(math.isinf(t) for u in nodes for t in hist[u][0]) or any(math.isinf(t) for t in arrs[0]):
